@@ -92,49 +92,108 @@ impl Write for Rec {
 const UNIT: usize = 30000;
 
 fn units_of(bytes: &[u8]) -> Vec<Value> {
-    if bytes.len() % UNIT != 0 { return vec![json!(format!("PARTIAL {} bytes", bytes.len()))]; }
+    // (integers only, so that TLC can compare them: -1 = not a whole number of units, -2 = damaged unit)
+    if bytes.len() % UNIT != 0 { return vec![json!(-1)]; }
     bytes.chunks(UNIT).map(|c| {
         let id = u32::from_str_radix(&String::from_utf8_lossy(&c[..8]), 16).unwrap_or(0);
         let ok = c[8..].iter().enumerate().all(|(i, b)| *b == ((id as usize * 31 + i) % 251) as u8);
-        if ok { json!(id) } else { json!(format!("CORRUPT unit {id}")) }
+        if ok { json!(id) } else { json!(-2) }
     }).collect()
 }
 
-fn run_child(v: &Value, idx: usize, emitter: &std::path::Path) -> (Value, Option<String>) {
+/// a writer that takes at most `cap` bytes per call (0 = everything)
+#[derive(Clone)]
+struct Short(Rec, usize);
+impl Write for Short {
+    fn write(&mut self, b: &[u8]) -> std::io::Result<usize> {
+        let n = if self.1 == 0 { b.len() } else { b.len().min(self.1) };
+        self.0.write(&b[..n])
+    }
+    fn flush(&mut self) -> std::io::Result<()> { Ok(()) }
+}
+
+fn cloexec_pipe() -> (std::fs::File, std::fs::File) {
+    use std::os::fd::FromRawFd;
+    let mut fds = [0i32; 2];
+    assert_eq!(unsafe { libc::pipe2(fds.as_mut_ptr(), libc::O_CLOEXEC) }, 0);
+    unsafe { (std::fs::File::from_raw_fd(fds[0]), std::fs::File::from_raw_fd(fds[1])) }
+}
+
+/// watchdog expiries so far: after three, the remaining cases are not started (they would only repeat it)
+static HANGS: std::sync::atomic::AtomicUsize = std::sync::atomic::AtomicUsize::new(0);
+
+enum Returned { Output(std::io::Result<std::process::Output>), Child(std::io::Result<(bool, std::process::ExitStatus)>) }
+
+/// One model case {script, linger, wcap} through one of the two entry points.
+fn run_child(v: &Value, idx: usize, api: &str, emitter: &std::path::Path) -> (Value, Option<String>) {
     let script: Vec<(String, u32)> = v["script"].as_array().unwrap().iter().map(|w| (w["s"].as_str().unwrap().to_string(), w["n"].as_u64().unwrap() as u32)).collect();
+    let linger = v["linger"] == true;
+    if HANGS.load(std::sync::atomic::Ordering::SeqCst) >= 3 {
+        return (json!({"script": v["script"], "api": api, "linger": linger, "wcap": v["wcap"], "skipped": true, "done": false, "out": [], "err": [], "writer_out": [], "writer_err": [], "returned_before_exit": false}), None);
+    }
+    let cap = if v["wcap"].as_u64().unwrap_or(3) <= 1 { [1000usize, 7777, 1][idx % 3] } else { 0 };
     let delay = [0u64, 0, 200, 2000][idx % 4];
     let (o, e) = (Rec(Arc::new(Mutex::new(vec![]))), Rec(Arc::new(Mutex::new(vec![]))));
     let (tx, rx) = std::sync::mpsc::channel();
-    let (o2, e2, em, sc) = (o.clone(), e.clone(), emitter.to_path_buf(), serde_json::to_string(&script).unwrap());
+    let (o2, e2, em, sc) = (Short(o.clone(), cap), Short(e.clone(), cap), emitter.to_path_buf(), serde_json::to_string(&script).unwrap());
+    // a lingering child runs until the write end of this pipe (its standard input) is closed: by us, after the call returned
+    let (stdin_r, stdin_w) = cloexec_pipe();
+    let release = Arc::new(Mutex::new(Some(stdin_w)));
+    let (release2, api2) = (release.clone(), api.to_string());
     std::thread::spawn(move || {
-        // every other child reads its standard input to the end first; the caller hands it an empty one
         let mut cmd = Command::new(em);
         cmd.arg(sc).arg(UNIT.to_string()).arg(delay.to_string());
-        if idx % 2 == 0 { cmd.stdin(std::process::Stdio::null()).env("EMITTER_READ_STDIN", "1"); }
-        let r = cmd.output_and_write_streams(o2, e2);
+        if linger { cmd.stdin(stdin_r).env("EMITTER_LINGER", "1"); }
+        // every other (non-lingering) child reads its standard input to the end first; the caller hands it an empty one
+        else if idx % 2 == 0 { cmd.stdin(std::process::Stdio::null()).env("EMITTER_READ_STDIN", "1"); }
+        let r = if api2 == "output" {
+            if linger { release2.lock().unwrap().take(); }   // (not used: the output API waits for the exit)
+            Returned::Output(cmd.output_and_write_streams(o2, e2))
+        } else {
+            Returned::Child(cmd.spawn_and_write_streams(o2, e2).and_then(|mut child| {
+                // "returns once both streams close": a lingering child is still running now
+                let running = matches!(child.try_wait(), Ok(None));
+                release2.lock().unwrap().take();
+                child.wait().map(|st| (running, st))
+            }))
+        };
         let _ = tx.send(r);
     });
-    let event_base = json!({"script": v["script"], "delay_us": delay});
-    match rx.recv_timeout(std::time::Duration::from_secs(30)) {
+    let mut ev = json!({"script": v["script"], "delay_us": delay, "api": api, "linger": linger, "wcap": v["wcap"], "writer_cap_bytes": cap,
+                        "done": false, "out": [], "err": [], "writer_out": [], "writer_err": [], "returned_before_exit": false});
+    let r = match rx.recv_timeout(std::time::Duration::from_secs(30)) {
         Err(_) => {
-            let mut ev = event_base; ev["done"] = json!(false); ev["out"] = json!([]); ev["err"] = json!([]);
-            (ev, Some("output_and_write_streams did not return within 30 s (deadlock)".into()))
+            HANGS.fetch_add(1, std::sync::atomic::Ordering::SeqCst);
+            release.lock().unwrap().take();
+            let _ = rx.recv_timeout(std::time::Duration::from_secs(10));
+            return (ev, Some(format!("{api}_and_write_streams did not return within 30 s ({})", if linger { "the child had closed both streams and kept running" } else { "deadlock" })));
         }
-        Ok(Err(e)) => { let mut ev = event_base; ev["done"] = json!(false); ev["out"] = json!([]); ev["err"] = json!([]); (ev, Some(format!("output_and_write_streams failed: {e}"))) }
-        Ok(Ok(output)) => {
-            let (wo, we) = (o.0.lock().unwrap().clone(), e.0.lock().unwrap().clone());
-            let mut problem = None;
+        Ok(r) => r,
+    };
+    let (wo, we) = (o.0.lock().unwrap().clone(), e.0.lock().unwrap().clone());
+    ev["writer_out"] = json!(units_of(&wo));
+    ev["writer_err"] = json!(units_of(&we));
+    let mut problem = None;
+    if wo.len() % UNIT != 0 || we.len() % UNIT != 0 {
+        problem = Some(format!("the supplied writers received {} / {} bytes, not what the child wrote (units of {UNIT} bytes)", wo.len(), we.len()));
+    }
+    match r {
+        Returned::Output(Err(e)) | Returned::Child(Err(e)) => return (ev, Some(format!("{api}_and_write_streams failed: {e}"))),
+        Returned::Output(Ok(output)) => {
             if wo != output.stdout || we != output.stderr { problem = Some("the supplied writers and the returned Output hold different bytes".to_string()); }
             if !output.status.success() { problem = Some(format!("child exit status {:?}", output.status)); }
-            let mut ev = event_base;
-            ev["done"] = json!(true);
             ev["out"] = json!(units_of(&output.stdout));
             ev["err"] = json!(units_of(&output.stderr));
-            ev["writer_out"] = json!(units_of(&wo));
-            ev["writer_err"] = json!(units_of(&we));
-            (ev, problem)
+        }
+        Returned::Child(Ok((running, status))) => {
+            if !status.success() { problem = Some(format!("child exit status {status:?}")); }
+            ev["returned_before_exit"] = json!(running);
+            ev["out"] = ev["writer_out"].clone();
+            ev["err"] = ev["writer_err"].clone();
         }
     }
+    ev["done"] = json!(true);
+    (ev, problem)
 }
 
 fn main() {
@@ -180,10 +239,19 @@ fn main() {
             let mut seen = std::collections::BTreeSet::new();
             raw.retain(|v| seen.insert(v.to_string()));
             let emitter = std::env::current_exe().unwrap().parent().unwrap().join("emitter");
-            let results = par_map(&raw, 8, |i, v| run_child(v, i, &emitter));
+            // every case through spawn_and_write_streams; the cases whose child exits by itself also through
+            // output_and_write_streams
+            let jobs: Vec<(usize, &str)> = (0..raw.len()).flat_map(|i| {
+                let mut a = vec![(i, "spawn")];
+                if raw[i]["linger"] != true { a.push((i, "output")); }
+                a
+            }).collect();
+            let results = par_map(&jobs, 16, |_, (i, api)| run_child(&raw[*i], *i, api, &emitter));
             let mut f = std::io::BufWriter::new(std::fs::File::create(&args[3]).unwrap());
-            s.evaluations = raw.len();
-            for (v, (ev, problem)) in raw.iter().zip(results) {
+            s.evaluations = jobs.len();
+            s.extra.insert("lingering_children".into(), json!(jobs.iter().filter(|(i, _)| raw[*i]["linger"] == true).count()));
+            s.extra.insert("short_writer_runs".into(), json!(jobs.iter().filter(|(i, _)| raw[*i]["wcap"] == 1).count()));
+            for (v, (ev, problem)) in jobs.iter().map(|(i, _)| &raw[*i]).zip(results) {
                 writeln!(f, "{ev}").unwrap();
                 let total: u64 = v["script"].as_array().unwrap().iter().map(|w| w["n"].as_u64().unwrap()).sum();
                 if total >= 3 { s.distinct_nontrivial += 1; }
